@@ -172,7 +172,7 @@ def check_wellposed(case, ctx: Ctx) -> None:
         text, _ = lt.write_text(built.mesh)
     except (UndefinedGradingsError, InconsistentGradingsError) as ex:
         raise Violation("wellposed-rejected", f"{type(ex).__name__}: {ex}", **facts) from None
-    except ValueError:
+    except (ValueError, ArithmeticError):  # a size/ratio combination that cannot be realised on some edge
         ctx.label("chop-rejected")
         return
     bmd, shared, anti, spread = check_written(case, built, text, ctx, True)
@@ -238,7 +238,7 @@ def check_redundant(case, ctx: Ctx) -> None:
         ctx.label("rejected-inconsistent")
         ctx.nt(case["extra"] >= 1)
         return
-    except ValueError:
+    except (ValueError, ArithmeticError):  # a size/ratio combination that cannot be realised on some edge
         ctx.label("chop-rejected")
         return
     check_written(case, built, text, ctx, False)
